@@ -104,6 +104,33 @@ theorem bweylN_tracefree (hγu : Symm γup) (hinv : ∀ a e', ∑ c, γ a c * γ
   simp only [bweylN_split e s γup γ DK DKtr DKm hinv]
   linear_combination (norm := sum3_ring) h1 + (1 / 2 : K) * h2
 
+/-- `γ^{df} ε_{bfa} = −γ^{df} ε_{afb}`. -/
+theorem lc3_swap (d : Fin 3) : ∀ a b : Fin 3,
+    ∑ f, γup d f * lc3 e s b f a = -∑ f, γup d f * lc3 e s a f b := by
+  cases3 <;> cases3 <;>
+    (simp only [lc3, Fin.sum_univ_three, levicivita_symbol_down3, ↓vec3_0, ↓vec3_1, ↓vec3_2]; ring)
+
+/-- **the antisymmetric part of `B`, exactly**: `B_ab − B_ba = γ^{df} ε_{afb} [(D_d K − D_e K^e{}_d) − (γ^{pq} D_d K_qp − γ^{ce} D_c K_ed)]`,
+i.e. the Levi-Civita dual of the failure of the two traces to commute with the derivative. -/
+theorem bweylN_antisymm_part (h2 : (2 : K) ≠ 0) (hγu : Symm γup)
+    (hinv : ∀ a e', ∑ c, γ a c * γup c e' = if a = e' then 1 else 0)
+    (hDK : ∀ c d a, DK c d a = DK c a d) (a b : Fin 3) :
+    bweylN (epsUud3 γup (lc3 e s)) γ DK DKtr DKm a b - bweylN (epsUud3 γup (lc3 e s)) γ DK DKtr DKm b a
+      = ∑ d, (∑ f, γup d f * lc3 e s a f b) * ((DKtr d - ∑ k, DKm k k d) - bW γup DK d) := by
+  rw [bweylN_split e s γup γ DK DKtr DKm hinv a b, bweylN_split e s γup γ DK DKtr DKm hinv b a]
+  have I := bT1_antisymm e s γup DK hγu hDK a b
+  have hsw : ∑ d, (∑ f, γup d f * lc3 e s b f a) * (DKtr d - ∑ k, DKm k k d)
+      = ∑ d, (-∑ f, γup d f * lc3 e s a f b) * (DKtr d - ∑ k, DKm k k d) :=
+    Finset.sum_congr rfl fun d _ => by rw [lc3_swap e s γup d a b]
+  have hY : bY e s γup DK a b = ∑ d, (∑ f, γup d f * lc3 e s a f b) * bW γup DK d := by
+    simp only [bY, Finset.sum_mul]
+  have hh : (1 / 2 : K) * 2 = 1 := by field_simp
+  rw [hY] at I
+  generalize (1 / 2 : K) = hf at hh ⊢
+  generalize bW γup DK = W at I ⊢
+  linear_combination (norm := sum3_ring) I - hf * hsw
+    + (∑ d, (∑ f, γup d f * lc3 e s a f b) * (DKtr d - ∑ k, DKm k k d)) * hh
+
 /-- **`B` is symmetric** when the traces commute with the derivative (`H1`, `H2`), characteristic ≠ 2. -/
 theorem bweylN_symm (h2 : (2 : K) ≠ 0) (hγu : Symm γup)
     (hinv : ∀ a e', ∑ c, γ a c * γup c e' = if a = e' then 1 else 0)
